@@ -15,7 +15,9 @@
     number of evaluations; their liveness, the bound of 1000 evaluations, the finiteness of all
     outputs and the exception policy are MONITORED per generated input by harness/props/c19.py. *)
 From Coq Require Import Arith Bool Lia.
+From Coq Require Import Reals List.
 From D3 Require Import Gen.NarrowCaps Model.GjkCaps Proofs.GjkCaps.
+From D3 Require Import Base.Ops Base.Vec Base.RVec Spec.Convex Model.Simplex Model.JoltLoop Proofs.JoltLoop Proofs.GjkTermination.
 
 (** the bounds, as functions of what the source declares *)
 Definition f_libccd : nat := 2 * libccd_pairs_per_pass * libccd_max_iterations.
@@ -84,7 +86,7 @@ Qed.
 Theorem C19_default_caps_within_1000 :
   f_libccd <= 1000 /\ f_epa <= 1000 /\ f_mpr_discover <= 1000 /\ f_mpr_pen_discover + f_mpr_pen_info <= 1000 /\
   f_nesterov <= 1000 /\ f_nesterov_prim <= 1000.
-Proof. vm_compute. repeat split; repeat constructor. Qed.
+Proof. repeat split; apply Nat.leb_le; vm_compute; reflexivity. Qed.
 
 (** _refine_portal has no cap in the source read today (else the model above would be wrong) *)
 Theorem C19_refine_portal_is_uncapped : mpr_refine_capped = false.
@@ -94,6 +96,34 @@ Proof. reflexivity. Qed.
 Theorem C19_uncapped_loops_unbounded :
   forall N, exists leave fuel c, while_true_loop fuel leave 0 0 = Some c /\ N < c.
 Proof. exact uncapped_loop_has_no_structural_bound. Qed.
+
+(** ** the uncapped Jolt loop in exact real arithmetic (model Model/JoltLoop.v) *)
+(** the loop continues only if the squared length of the closest point decreased strictly *)
+Theorem C19_jolt_continues_only_on_strict_decrease : forall tol maxd p q (s s' : @dstate R),
+  (0 <= prev_v_len_sq s)%R ->
+  distance_step tol maxd p q s = SDone Unknown s' ->
+  prev_v_len_sq s' = v_len_sq s' /\ (v_len_sq s' < prev_v_len_sq s)%R.
+Proof. exact distance_step_unknown_decreases. Qed.
+
+(** PARTIAL: if the solver's values on continuing iterations lie in a finite list [vals] (true for
+    polytopes by C18 — not proved here, and the bound is far above 1000), the loop never runs out
+    of fuel beyond the number of candidate values below the current one *)
+Theorem C19_jolt_terminates_if_finitely_many_values_partial :
+  forall (A B : set3) (sA sB : V3R -> V3R) (vals : list R) (tol maxd san : R),
+  (forall d, A (sA d)) -> (forall d, B (sB d)) ->
+  Forall (fun x => (0 <= x)%R) vals ->
+  (forall s p q s', srows A B s -> A p -> B q ->
+     distance_step tol maxd p q s = SDone Unknown s' -> In (v_len_sq s') vals) ->
+  forall fuel s it,
+    srows A B s -> (0 <= prev_v_len_sq s)%R -> below vals (prev_v_len_sq s) < fuel ->
+    distance_loop fuel tol maxd san sA sB s it <> DFuel.
+Proof. exact jolt_terminates_if_finitely_many_values_partial. Qed.
+
+(** a concrete continuing step: the hypotheses of the strict-decrease theorem are satisfiable *)
+Example C19_jolt_step_nonvacuous :
+  (0 <= prev_v_len_sq s100)%R /\
+  exists s', distance_step 0%R 100000%R (V 2 0 0)%R (V 0 0 0)%R s100 = SDone Unknown s'.
+Proof. split; [unfold s100; cbn; Lra.lra|eexists; exact step_unknown]. Qed.
 
 (** Non-vacuity: the bounds are attained by concrete oracles (never returning early), so they
     are not vacuous upper bounds of empty behaviours *)
@@ -111,4 +141,7 @@ Print Assumptions C19_capped_loops_bounded.
 Print Assumptions C19_default_caps_within_1000.
 Print Assumptions C19_refine_portal_is_uncapped.
 Print Assumptions C19_uncapped_loops_unbounded.
+Print Assumptions C19_jolt_continues_only_on_strict_decrease.
+Print Assumptions C19_jolt_terminates_if_finitely_many_values_partial.
+Print Assumptions C19_jolt_step_nonvacuous.
 Print Assumptions C19_nonvacuous.
